@@ -48,7 +48,13 @@ package calendar
 //@ # Any instant given as a Julian Day converts to the valid date-time nearest to it (to the second).
 //@ # J is the day number (noon-based day containing the instant), F the day fraction; (yOf,mOf,dOf)(J) is the
 //@ # proved-to-exist date with that day number (lemma ymdOf), used as the witness the Meeus inverse must reproduce.
+//@ # name for the (deterministic) second count of the conversion result, so that two conversions of the same Julian Day
+//@ # are known to agree
+//@ uninterp spec func nsec(jd float64) int
+//@   = tsec(NewSolarFromJulianDay(jd))
+
 //@ func NewSolarFromJulianDay(julianDay float64) *Solar [C04 C07]
+//@   defines nsec(julianDay) == tsec(result)
 //@   requires 1721058.0 <= julianDay+0.5 && julianDay+0.5 <= 5373483.0
 //@   ensures float64(tsec(result)) - julianDay*86400.0 <= 0.501
 //@   ensures julianDay*86400.0 - float64(tsec(result)) <= 0.501
@@ -109,7 +115,9 @@ package calendar
 //@   ensures sjdn(result) == sjdn(solar) + days
 //@   ensures result.hour == solar.hour && result.minute == solar.minute && result.second == solar.second
 //@   ensures inYears(result.year)
+//@   ensures result.year == yOf(sjdn(solar)+days)
 //@   use dayLinear(solar.year, solar.month, solar.day)
+//@   use yearOfDate(y, m, d) @ end
 //@   loop 1 invariant 1 <= m && m <= 12 && d >= 1 && -50 <= y && y <= 10050 && daysInMonth == dim(y, m) && jdn(y, m, 1)+d-1 == sjdn(solar)+days
 //@   loop 1 decreases d
 //@   loop 2 invariant 1 <= m && m <= 12 && d >= 1 && -50 <= y && y <= 10050 && d+days <= dim(y, m) && jdn(y, m, 1)+d-1 == sjdn(solar)
